@@ -46,7 +46,7 @@ fn u_with(b: &Universal2DBox, i: usize, v: f32) -> Universal2DBox {
 fn main() {
     let cli = Cli::parse();
     let mut rep = Report::new("C19", &cli);
-    rep.note("rule", json!("case = random base box (magnitudes 1e-2..1e4, angle None/Some incl. k*pi/2 and |angle|>2pi). Per base: ltwh->universal->ltwh round trip; polygon vertices vs an f64 rotation of the axis-aligned rectangle (as a vertex set, plus shoelace area in the given order, centroid, max vertex radius vs area()/centre/get_radius()); equality: reflexive, and for EVERY field of BoundingBox (5) and Universal2DBox (5) x delta in {+-EPS/4, +-4EPS, +-1, +-100} x both argument orders: symmetric, equal iff the actual f32 difference < EPS; plus pairs differing in several coordinates at once (all below EPS => equal, any clearly above => unequal) (pairs whose actual difference is within 2% of EPS are skipped and counted); normalize_angle: result in [0, 2pi_f32] and congruent to the input modulo 2pi within rounding. Non-trivial: every base box (distinct by field bits)."));
+    rep.note("rule", json!("case = random base box (magnitudes 1e-2..1e4, angle None/Some incl. k*pi/2 and |angle|>2pi). Per base: ltwh->universal->ltwh round trip; polygon vertices (also after field writes / rotate_mut following gen_vertices()) vs an f64 rotation of the axis-aligned rectangle (as a vertex set, plus shoelace area in the given order, centroid, max vertex radius vs area()/centre/get_radius()); equality: reflexive, and for EVERY field of BoundingBox (5) and Universal2DBox (5) x delta in {+-EPS/4, +-4EPS, +-1, +-100} x both argument orders: symmetric, equal iff the actual f32 difference < EPS; plus pairs differing in several coordinates at once (all below EPS => equal, any clearly above => unequal) (pairs whose actual difference is within 2% of EPS are skipped and counted); normalize_angle: result in [0, 2pi_f32] and congruent to the input modulo 2pi within rounding. Non-trivial: every base box (distinct by field bits)."));
     rep.note("assumptions", json!(["equality is judged on the difference actually representable in f32 after applying the delta (at |x|=1e4 a delta of EPS/4 is absorbed by rounding and the pair is then expected to be equal)"]));
     let n = cli.cases(80_000, 800_000);
     let deltas: [f32; 8] = [EPS / 4.0, -EPS / 4.0, 4.0 * EPS, -4.0 * EPS, 1.0, -1.0, 100.0, -100.0];
@@ -102,7 +102,29 @@ fn main() {
         let yc = (rng.uniform(-1.0, 1.0) * mag) as f32;
         let aspect = rng.log_uniform(0.05, 20.0) as f32;
         let hh = rng.log_uniform(1e-2, 1e4) as f32;
-        let ub = Universal2DBox::new(xc, yc, angle, aspect, hh);
+        // a quarter of the boxes reach these parameters through public field writes AFTER gen_vertices() cached the polygon
+        // of an earlier state (the polygon is a function of the current parameters only), or through rotate_mut()
+        let ub = match rng.usize(8) {
+            0 => {
+                let mut t = Universal2DBox::new(xc + 3.0 * hh, yc - hh, Some(angle.unwrap_or(0.0) + 0.7), aspect * 1.3, hh * 0.8);
+                t.gen_vertices();
+                t.xc = xc;
+                t.yc = yc;
+                t.angle = angle;
+                t.aspect = aspect;
+                t.height = hh;
+                rep.count("polygons_after_field_writes_following_gen_vertices");
+                t
+            }
+            1 if angle.is_some() => {
+                let mut t = Universal2DBox::new(xc, yc, Some(0.4), aspect, hh);
+                t.gen_vertices();
+                t.rotate_mut(angle.unwrap());
+                rep.count("polygons_after_rotate_mut_following_gen_vertices");
+                t
+            }
+            _ => Universal2DBox::new(xc, yc, angle, aspect, hh),
+        };
         h.f32(xc).f32(yc).f32(angle.unwrap_or(-99.0)).f32(aspect).f32(hh);
         {
             let poly = ub.get_vertices();
